@@ -27,6 +27,57 @@ Proof.
   intros ofit ws lws. eexists. split; [reflexivity|]. apply first_fit_greedy.
 Qed.
 
+(* at the level of wrap and fill themselves (found missing by an audit: C07_text_level above is about run_alg on an arbitrary word list): for every paragraph k of the text, the texts of the lines wrap returns for it are the lines rendered from the groups first-fit forms from THAT paragraph's pipeline fragments for the widths line_widths cw o (k =? 0) -- only the first paragraph's first line is measured against the initial indent -- and that grouping is Greedy and the only greedy one.  TrimOK (the paragraph's fragments do not end in a space) is a theorem for the ASCII separator and, under the oracle hypotheses, for the Unicode one (Props/C05.v); it is needed because the byte-length shortcut trims trailing spaces.  fill is the join of those lines. *)
+From TW Require Import WrapLevel.
+Theorem C07_wrap_level :
+  forall (cw : Chars.char -> BinNums.N) (alnum : Chars.char -> bool)
+           (lbc custom_sp : Chars.str -> list BinNums.N),
+         (forall c : Chars.char, BinNat.N.le (cw c) (Chars.utf8_len c)) ->
+         forall (ofit : OptFit.penalties -> list Word.word -> list BinNums.N -> option (list (list Word.word)))
+           (o : Wrap.options) (text : Chars.str),
+         Pipeline.OfitOK ofit ->
+         Pipeline.SplitterOK custom_sp ->
+         Wrap.o_alg o = Wrap.FirstFit ->
+         exists (ls : list Wrap.oline) (pls : list (list Wrap.oline)),
+           Wrap.wrap cw alnum lbc custom_sp ofit o text = Some ls /\
+           Wrap.fill cw alnum lbc custom_sp ofit o text =
+           Some (Chars.join (Wrap.le_str (Wrap.o_le o)) (List.map Wrap.l_text ls)) /\
+           ls = List.concat pls /\
+           length pls = length (Wrap.split_le (Wrap.o_le o) text) /\
+           (forall (k : nat) (p : Chars.str),
+            List.nth_error (Wrap.split_le (Wrap.o_le o) text) k = Some p ->
+            Fits.TrimOK cw alnum lbc custom_sp o (PeanoNat.Nat.eqb k 0) p ->
+            exists (bws : list Word.word) (pl : list Wrap.oline),
+              List.nth_error pls k = Some pl /\
+              option_map (List.map (Wrap.shift_cow (para_offset o text k)))
+                (Wrap.wrap_single_line cw alnum lbc custom_sp ofit o (PeanoNat.Nat.eqb k 0) p) = 
+              Some pl /\
+              Pipeline.pipeline_words cw alnum lbc custom_sp o (PeanoNat.Nat.eqb k 0) p = Some bws /\
+              Pipeline.gtext bws = p /\
+              List.map Wrap.l_text pl =
+              List.map Wrap.l_text
+                (group_lines o (PeanoNat.Nat.eqb k 0) bws
+                   (FirstFit.first_fit Wrap.word_frag bws
+                      (List.map BinInt.Z.of_N (Pipeline.line_widths cw o (PeanoNat.Nat.eqb k 0))))) /\
+              List.concat
+                (FirstFit.first_fit Wrap.word_frag bws
+                   (List.map BinInt.Z.of_N (Pipeline.line_widths cw o (PeanoNat.Nat.eqb k 0)))) = bws /\
+              Greedy.Greedy Word.word Wrap.word_frag
+                (List.map BinInt.Z.of_N (Pipeline.line_widths cw o (PeanoNat.Nat.eqb k 0)))
+                (FirstFit.first_fit Wrap.word_frag bws
+                   (List.map BinInt.Z.of_N (Pipeline.line_widths cw o (PeanoNat.Nat.eqb k 0)))) /\
+              (forall lines : list (list Word.word),
+               bws <> nil ->
+               List.concat lines = bws ->
+               List.Forall (fun l : list Word.word => l <> nil) lines ->
+               Greedy.Greedy Word.word Wrap.word_frag
+                 (List.map BinInt.Z.of_N (Pipeline.line_widths cw o (PeanoNat.Nat.eqb k 0))) lines ->
+               lines =
+               FirstFit.first_fit Wrap.word_frag bws
+                 (List.map BinInt.Z.of_N (Pipeline.line_widths cw o (PeanoNat.Nat.eqb k 0))))).
+Proof. exact (@wrap_first_fit_groups). Qed.
+
+Print Assumptions C07_wrap_level.
 Print Assumptions C07_first_fit_greedy.
 Print Assumptions C07_greedy_unique.
 Print Assumptions C07_text_level.
